@@ -18,6 +18,9 @@ def run(tier, seed, replay_rows=None):
     ck.assumptions = ["cooperative schedules interleave at yield-point grain; finer interleavings are explored by TLC on the spec",
                       "a tick that passed its context check but publishes after the stop flag (LateTick) is only required "
                       "not to be over-counted"]
+    # unbounded: conservation of the pending-request counter for ANY number of workers and ticks (inductive invariant,
+    # Apalache); the give-back mutant (two atomic steps instead of one) must not be inductive
+    vlib.inductive(ck, "JobLedgerInd", mutant="JobLedgerIndMut")
     kw = dict(workers=16, timeout=1800)
     mcs = [("TriggerPool", "MC_TriggerPool_quick.cfg", kw), ("TriggerPool", "MC_TriggerPool_limit.cfg", kw),
            ("TriggerPool", "MC_TriggerPool_usable.cfg", kw)]
